@@ -731,7 +731,8 @@ func (w *World) call(f *Func, ft reflect.Type, args []reflect.Value) []reflect.V
 	if f.Reenter && !(f.ReCB && f.Callback) && f.Role != RoleInv && fault == FaultNone {
 		w.reenter(f)
 	}
-	if f.ThenProvide > 0 && f.Role == RoleInv && fault == FaultNone {
+	if f.ThenProvide > 0 && f.Role == RoleInv && fault != FaultPanic {
+		// (also when the function then returns an error)
 		w.thenProvide(f)
 	}
 	w.Open = w.Open[:len(w.Open)-1]
@@ -814,8 +815,10 @@ func (w *World) reenter(f *Func) {
 	default:
 		p = Param{Kind: PSingle, T: k.T}
 	}
-	probe := reflect.MakeFunc(reflect.FuncOf([]reflect.Type{paramType(p, true)}, nil, false), func([]reflect.Value) []reflect.Value {
-		w.emit(Event{Kind: EvNested, Fn: f.ID, Exec: -2})
+	probe := reflect.MakeFunc(reflect.FuncOf([]reflect.Type{paramType(p, true)}, nil, false), func(args []reflect.Value) []reflect.Value {
+		// what the nested request delivered is part of the log
+		obs := w.observeParams([]Param{p}, func(int) reflect.Value { return args[0] }, nil)
+		w.emit(Event{Kind: EvNested, Fn: f.ID, Exec: -2, Args: obs})
 		return nil
 	}).Interface()
 	err, facts := w.guard(func() error { return w.Scopes[home].Invoke(probe) })
@@ -870,6 +873,10 @@ func (e *Event) Canon() string {
 	}
 	switch e.Kind {
 	case EvEnter:
+		for _, a := range e.Args {
+			fmt.Fprintf(&b, " %v/%v/%s", a.Serials, a.Zero, a.Bad)
+		}
+	case EvNested:
 		for _, a := range e.Args {
 			fmt.Fprintf(&b, " %v/%v/%s", a.Serials, a.Zero, a.Bad)
 		}
